@@ -61,6 +61,37 @@ def bswap64 (x : BitVec 64) : BitVec 64 :=
   ((x &&& 0x000000FF00000000#64) >>> 8) ||| ((x &&& 0x0000FF0000000000#64) >>> 24) |||
   ((x &&& 0x00FF000000000000#64) >>> 40) ||| ((x &&& 0xFF00000000000000#64) >>> 56)
 
+/-! ### words from / to byte lists (variable-length keys, generic helpers) -/
+
+/-- value of a byte list read little-endian -/
+def bytesToNatLE (bs : Bytes) : Nat := bs.foldr (fun b acc => acc * 256 + b.toNat) 0
+
+/-- split a list into chunks of `n` (last chunk may be short); `n = 0` gives `[]` -/
+def chunksOf {α : Type} (n : Nat) : List α → List (List α)
+  | [] => []
+  | x :: xs =>
+    if n = 0 then [] else
+    let rest := chunksOf n ((x :: xs).drop n)
+    (x :: xs).take n :: rest
+termination_by l => l.length
+decreasing_by all_goals simp only [List.length_drop, List.length_cons]; omega
+
+def wordsBE (w : Nat) (bs : Bytes) : List (BitVec w) :=
+  (chunksOf (w / 8) bs).map (fun c => BitVec.ofNat w (bytesToNat c))
+
+def wordsLE (w : Nat) (bs : Bytes) : List (BitVec w) :=
+  (chunksOf (w / 8) bs).map (fun c => BitVec.ofNat w (bytesToNatLE c))
+
+/-- bytes of a word, most significant first -/
+def wordBytesBE {w : Nat} (x : BitVec w) : Bytes := unpackBE (w / 8) x
+
+/-- bytes of a word, least significant first -/
+def wordBytesLE {w : Nat} (x : BitVec w) : Bytes := (unpackBE (w / 8) x).reverse
+
+/-- `x.rotate_left(n)` of Rust for a run-time amount (reduced mod the width, as Rust does) -/
+def rotl {w : Nat} (x : BitVec w) (n : Nat) : BitVec w := x.rotateLeft n
+def rotr {w : Nat} (x : BitVec w) (n : Nat) : BitVec w := x.rotateRight n
+
 /-- index bound for masked table look-ups: `(x &&& m).toNat < m.toNat + 1` -/
 theorem and_toNat_le {w : Nat} (x m : BitVec w) : (x &&& m).toNat ≤ m.toNat := by
   rw [BitVec.toNat_and]; exact Nat.and_le_right
